@@ -198,7 +198,7 @@ def run(ctx, replay):
             # row, for every successor of every state of a random walk)
             "simdoc": dict(workers=1, timeout=1500, simulate=150 if thorough else 15, depth=6,
                            cfg_text=cfg(maxitems=4, mutlen=4, styles=STYLES_ALL, depths=depths, ladders=ladders)),
-            "simraw": dict(workers=1, timeout=1500, simulate=300 if thorough else 25, depth=17,
+            "simraw": dict(workers=1, timeout=1500, simulate=300 if thorough else 15, depth=17,
                            cfg_text=cfg(spec="SpecRaw", rawlen=16)),
         }
         with ThreadPoolExecutor(max_workers=6) as ex:
@@ -228,7 +228,7 @@ def run(ctx, replay):
         # quick: everything structured, a seeded sample of the rest; rows that the model
         # says hit a resource-exhaustion deviation cost seconds each: a few per deviation
         if not thorough:
-            rows_mut = vlib.sample(ctx.rng, rows_mut, 2500)
+            rows_mut = vlib.sample(ctx.rng, rows_mut, 1500)
         rows = rows_doc + rows_mut + rows_raw + rows_sim + rows_simraw
         seen, uniq, heavy = set(), [], {}
         for x in rows:
@@ -336,7 +336,7 @@ def run(ctx, replay):
     ctx.cov["rule"] = (
         "rows = states of spec/CfgSyntax.tla enumerated by TLC: structured documents (all sequences of <= 2 of the "
         "gadgets x styles; deep-nesting and import-ladder gadgets alone), every single-piece mutation (drop / insert "
-        "one of 12 pieces) of the one-gadget documents (seeded sample of 2500 in quick), every string over the "
+        "one of 12 pieces) of the one-gadget documents (seeded sample of 1500 in quick), every string over the "
         "18-class byte alphabet up to length %d, the two shipped files, plus -simulate rows (documents of <= 4 gadgets "
         "with mutation, raw strings up to 16 classes), de-duplicated by (layer, source bytes, document); rows the model "
         "marks as resource-exhausting deviations: all in thorough, 4 per deviation and document length in quick. "
